@@ -55,6 +55,7 @@ struct Shim {
     fs_names: Option<NamesFn>,
     fs_count: Option<FsCountFn>,
     set_sched: Option<SetSchedFn>,
+    #[allow(dead_code)]
     sched_points: Option<SchedPointsFn>,
 }
 
@@ -368,6 +369,13 @@ struct SchedCtx {
     baton: *const Baton,
     me: usize,
     den: u64,
+    /// the same for scheduling points at atomic operations (the `atom` build only)
+    aden: u64,
+}
+
+#[cfg(sim_atomics)]
+extern "C" {
+    fn atomrt_set_hook(f: Option<SchedCb>, arg: *mut std::ffi::c_void);
 }
 
 thread_local! {
@@ -376,18 +384,39 @@ thread_local! {
     static IN_BATON: std::cell::Cell<bool> = const { std::cell::Cell::new(false) };
 }
 
+/// scheduling points offered to the scheduler: heap allocations, blocking waits that became
+/// hand-overs, atomic operations
+static SCHED_POINTS: [std::sync::atomic::AtomicU64; 3] = [std::sync::atomic::AtomicU64::new(0), std::sync::atomic::AtomicU64::new(0), std::sync::atomic::AtomicU64::new(0)];
+
 extern "C" fn sched_cb(arg: *mut std::ffi::c_void, why: std::ffi::c_int) -> std::ffi::c_int {
     if IN_BATON.with(|b| b.get()) {
         return 0;
     }
+    // (the baton waits on a condition variable: a futex wait, which comes back here through
+    // the shim, and its mutex is made of atomic operations, which come back through atomrt)
+    IN_BATON.with(|b| b.set(true));
     let ctx = unsafe { &*(arg as *const SchedCtx) };
     let baton = unsafe { &*ctx.baton };
-    if why == 1 {
-        baton.blocked_switch(ctx.me) as std::ffi::c_int
+    // counted here, after the guard: the baton's own lock and wait come back through the same
+    // hooks, how often depends on real timing, and they are not scheduling points
+    if why != 1 {
+        SCHED_POINTS[if why == 2 { 2 } else { 0 }].fetch_add(1, std::sync::atomic::Ordering::Relaxed);
+    }
+    let r = if why == 1 {
+        let switched = baton.blocked_switch(ctx.me);
+        if switched {
+            SCHED_POINTS[1].fetch_add(1, std::sync::atomic::Ordering::Relaxed);
+        }
+        switched as std::ffi::c_int
+    } else if why == 2 {
+        baton.maybe_switch_den(ctx.me, ctx.aden);
+        0
     } else {
         baton.maybe_switch_den(ctx.me, ctx.den);
         0
-    }
+    };
+    IN_BATON.with(|b| b.set(false));
+    r
 }
 
 struct ThreadState {
@@ -478,11 +507,25 @@ fn run_cmd(st: &mut ThreadState, cmd: Cmd) -> Option<String> {
                 3 => 4096,
                 _ => 32768,
             };
-            let ctx = SchedCtx { baton: &*baton as *const Baton, me, den };
+            let aden = match (baton.seed >> 16) % 4 {
+                0 => 4,
+                1 => 16,
+                2 => 128,
+                _ => 2048,
+            };
+            let ctx = SchedCtx { baton: &*baton as *const Baton, me, den, aden };
             if let Some(f) = st.shim.set_sched {
                 unsafe { f(Some(sched_cb), &ctx as *const SchedCtx as *mut std::ffi::c_void) }
             }
+            #[cfg(sim_atomics)]
+            unsafe {
+                atomrt_set_hook(Some(sched_cb), &ctx as *const SchedCtx as *mut std::ffi::c_void)
+            }
             let r = guarded_expand(&src, st.shim, false);
+            #[cfg(sim_atomics)]
+            unsafe {
+                atomrt_set_hook(None, std::ptr::null_mut())
+            }
             if let Some(f) = st.shim.set_sched {
                 unsafe { f(None, std::ptr::null_mut()) }
             }
@@ -678,10 +721,7 @@ fn main() {
                     out.write_all(r.as_bytes()).unwrap();
                 }
                 let sw = baton.state.lock().unwrap().switches;
-                let points = match shim.sched_points {
-                    Some(f) => unsafe { f(0) + f(1) },
-                    None => 0,
-                };
+                let points: u64 = SCHED_POINTS.iter().map(|c| c.load(std::sync::atomic::Ordering::Relaxed)).sum();
                 writeln!(out, "K {} {} {}", members[0].0, sw, points).unwrap();
             },
             Some("Y") => {
